@@ -129,6 +129,15 @@ func init() {
 			in := sliceTerms(a[1])
 			return c.applyUF(name, in, 1, -1)[0]
 		},
+		"vUF32": func(c *Ctx, fr *frame, fn *ssa.Function, a []value, pos token.Pos) value {
+			// vUF32(name string, args ...*big.Int) [32]byte
+			name := tagOf(c, a[0])
+			var in []*Term
+			for _, p := range a[1].([]value) {
+				in = append(in, c.bigOf(p, pos))
+			}
+			return array(termsSlice(c.applyUF(name, in, 32, 255)))
+		},
 		"vUFBig": func(c *Ctx, fr *frame, fn *ssa.Function, a []value, pos token.Pos) value {
 			// vUFBig(name string, args ...*big.Int) *big.Int   (non-negative result)
 			name := tagOf(c, a[0])
